@@ -1,4 +1,7 @@
 """C14 — Manifests, CRLs and signed objects are refreshed in time with rising numbers."""
+import sys
+from pathlib import Path
+sys.path.insert(0, str(Path(__file__).resolve().parent))
 import objlib
 
 RULE = ("stream system judged by `kmodel sysobjects C14`: seeded histories (ROA/ASPA/BGPsec deltas, entitlement changes, "
